@@ -1,5 +1,5 @@
 (* C15 — statements only; proofs are in Kahn.v, Order.v, TarjanProofs.v. *)
-From Coq Require Import NArith List Bool Relations Permutation.
+From Coq Require Import Arith NArith List Bool Relations Permutation.
 Import ListNotations.
 Require Import EmbossV.Deps.Graph EmbossV.Deps.Kahn EmbossV.Deps.Order.
 
@@ -27,3 +27,21 @@ Proof. exact order_stable_proof. Qed.
 Theorem order_defined : forall fs ps,
   local_acyclic fs ps -> exists o, dep_order fs ps = Done o.
 Proof. exact order_defined_proof. Qed.
+
+(* cycle clause, algorithmic level: the Gallina mirror of _find_cycles (Tarjan.v).
+   Not proved: that every *reported* component is a strongly connected component. *)
+Require Import EmbossV.Deps.Tarjan EmbossV.Deps.TarjanProofs.
+
+Theorem tarjan_none_iff_acyclic : forall g fuel, closed g -> length g < fuel ->
+  (find_cycles fuel g = TOk [] <-> ~ cyclic g).
+Proof. exact tarjan_none_iff_acyclic_proof. Qed.
+
+(* no KeyError / IndexError / exhausted fuel on a closed graph, and the set of
+   reported components is empty exactly on acyclic graphs *)
+Theorem tarjan_verdict : forall g fuel, closed g -> length g < fuel ->
+  exists C, find_cycles fuel g = TOk C /\ (C = [] <-> ~ cyclic g).
+Proof. exact tarjan_verdict_proof. Qed.
+
+Theorem tarjan_agrees_with_acyclic_dec : forall g, closed g ->
+  exists C, find_cycles (S (length g)) g = TOk C /\ (C = [] <-> acyclic_dec g = true).
+Proof. exact tarjan_agrees_with_acyclic_dec_proof. Qed.
